@@ -274,6 +274,8 @@ NoResendAfterRecorded == \A q \in posts : ~q.after
 ServerErrorKeeps == [][\A u \in Uploaders : (pc[u] = "UP_post" /\ pc'[u] = "UP_unlock") => ready'[wk[u]] = ready[wk[u]]]_vars
 ClientErrorDiscards == [][\A u \in Uploaders : (pc[u] = "UP_rm4xx" /\ pc'[u] # "UP_rm4xx" /\ alive'[u]) =>
                              (ready'[wk[u]] = Absent /\ uploaded'[wk[u]] = uploaded[wk[u]])]_vars
+LeftoverRetried == (Quiet /\ NoKills /\ Cardinality(Uploaders) = 1 /\ \A u \in Uploaders : runs[u] = MaxRuns) =>
+                     \A w \in Weeks : ready[w].st = "file" => \E q \in posts : q.w = w /\ q.n = MaxRuns
 NoLockLeft == (Quiet /\ NoKills) => \A w \in Weeks : ~lock[w]
 MarkerOnlyAfterAck == \A w \in Weeks : uploaded[w].st = "file" => \E a \in acks : a.w = w
 (* without crashes and with an answering server every uploadable week is eventually acknowledged exactly once *)
